@@ -165,10 +165,16 @@ def c11_2(R):
     for blk in db.blocks:
         if blk.cleanup or blk.term.kind != "switch":
             continue
-        t = trace(db, blk.term.op)
-        if t.kind in ("multi", "rv", "undef") or True:
-            d = t.describe()
-            if "tuple.0" in t.fields or "ext" in d:
+        pl = blk.term.op.place
+        # `match (ext, ext_len) { (EXT_.., _) => .. }`: a switch on element 0 of a freshly built pair, or directly on the id variable
+        if pl is not None and pl.fields == ["tuple.0"]:
+            d_ = db.unique_def(pl.local)
+            if isinstance(d_, Stmt) and d_.rv.kind == "agg" and d_.rv.j.get("ak") == "tuple" and len(d_.rv.ops) == 2:
+                for v, tg in blk.term.j["targets"]:
+                    sw_vals.add(v)
+        elif pl is not None and not pl.proj and len(blk.term.j["targets"]) >= 2 and {v for v, tg in blk.term.j["targets"]} <= {1, 2, 3}:
+            t = trace(db, blk.term.op)
+            if t.kind == "multi" and "u8" in db.local_ty(t.root[1]):
                 for v, tg in blk.term.j["targets"]:
                     sw_vals.add(v)
     if vals_w == {1, 3} and vals_w <= sw_vals:
